@@ -139,7 +139,7 @@ def step (e : St) (line : String) : St × String :=
     match rest with
     | [] | [_] =>
       match unhexStr (rest.headD "") with
-      | some s => (e, s!"flag {if Literals.isInteger s.toList then 1 else 0}")
+      | some s => (e, s!"flag {if Literals.isIntegerCur s.toList then 1 else 0}")
       | none => bad
     | _ => bad
   | "isfloat" :: rest =>
